@@ -25,7 +25,9 @@ func GenProfile(r *rand.Rand) *profile.Profile {
 	o := gen.Opt{Types: [][2]string{{"samples", "count"}, {"cpu", "nanoseconds"}}, Labels: true, NumLabels: true, Recursion: true, Unsym: r.Intn(3) == 0,
 		ValueClass: 4, MinSamples: 3, MaxSamples: 10, MaxDepth: 5, MaxFuncs: 6, MaxLocs: 8, Columns: true, IDMode: 1 + r.Intn(3), Alphabet: []int{gen.Plain, gen.GoNames, gen.Cpp}[r.Intn(3)],
 		LabelKeys: []string{"k1", "k2"}, LabelVals: []string{"v1", "v2", "x"}, NumUnits: []string{"bytes"}}
-	o.FileFn = func(r *rand.Rand) string { return []string{"/src/a.go", "/src/dir/b.go", "c.cc", "/other/d.go"}[r.Intn(4)] }
+	o.FileFn = func(r *rand.Rand) string {
+		return []string{"/src/a.go", "/src/dir/b.go", "c.cc", "/other/d.go"}[r.Intn(4)]
+	}
 	p := gen.Profile(r, o)
 	p.DropFrames = []string{"", "", "main|a"}[r.Intn(3)]
 	return p
@@ -245,7 +247,7 @@ func init() {
 		ID:          "C10",
 		Level:       "exploration",
 		CaseTimeout: 15 * time.Minute,
-		Rule: "part interactive: histories of 5-20 lines mixing 37 report commands (with focus/ignore arguments, node counts, -cum, >file, mutating reports: hide/show/show_from/prune_from/tagroot/tagleaf/granularity/noinlines/callgrind/tags/list/weblist/disasm) and 75 option assignments (incl. shortcuts and ':'), run in one fresh child process with per-line transcripts (stdout, UI prints, UI errors, files written); for EVERY command the same command is run in another fresh process that only replays the assignments preceding it, and the transcripts must be byte-equal (temporary-file counters normalised, saved profiles compared by content). part web: request histories over /top / /peek /flamegraph /source /disasm /download with query configs, sequential or from 2-6 concurrent clients against one server; every response must equal the response to the same request sent first to a fresh server. The very *profile.Profile object handed to pprof is fingerprinted after every command/request and must never change. non-trivial = every case; distinct = case",
+		Rule:        "part interactive: histories of 5-20 lines mixing 37 report commands (with focus/ignore arguments, node counts, -cum, >file, mutating reports: hide/show/show_from/prune_from/tagroot/tagleaf/granularity/noinlines/callgrind/tags/list/weblist/disasm) and 75 option assignments (incl. shortcuts and ':'), run in one fresh child process with per-line transcripts (stdout, UI prints, UI errors, files written); for EVERY command the same command is run in another fresh process that only replays the assignments preceding it, and the transcripts must be byte-equal (temporary-file counters normalised, saved profiles compared by content). part web: request histories over /top / /peek /flamegraph /source /disasm /download with query configs, sequential or from 2-6 concurrent clients against one server; every response must equal the response to the same request sent first to a fresh server. The very *profile.Profile object handed to pprof is fingerprinted after every command/request and must never change. non-trivial = every case; distinct = case",
 		Assumptions: []string{"the only state a command may depend on is the sequence of option assignments before it", "saveconfig/deleteconfig are excluded here (C19)"},
 		Parts: []harness.Part{
 			{Name: "interactive", Quick: 500, Thor: 10000, Run: runInteractive},
